@@ -149,6 +149,19 @@ CHECKS = {
         "Linear scalers only; 1e-9 relative tolerance; weighted objective and gradients are not part of the statement and are not compared.",
         "DESIGN.md §3 C11",
     ),
+    "C08": (
+        "exploration",
+        "exhaustive enumeration of constraint-kind combinations x methods x option variants + Hypothesis; captured scipy arguments evaluated by a feasibility-equivalence predicate and exact-derivative oracle",
+        "The arguments the plug-in passes to scipy.optimize.minimize / differential_evolution are captured (module-level rebinding in the harness "
+        "process) for every combination of constraint kinds of up to 2+2 (quick) / 3+3 (thorough) non-linear+linear constraints x all ten methods x "
+        "options None/{}/dict/list x max_iterations, all variable-bound patterns x methods, and random coefficients, bounds, masks and fixed values: "
+        "12 test points per case (random, on the equality manifold, just off it) must be feasible for the configured problem iff feasible for the "
+        "handed Bounds/dict/object constraints, each normalized constraint's jac must equal the exact derivative of its fun, x0/bounds must have the "
+        "free length, max_iterations must arrive as maxiter/maxfun, and kinds SciPy cannot handle for the method must be rejected.",
+        "Affine constraint functions; rows touching fixed variables are not retained by design; margin 1e-9 with an ambiguity band that is skipped; "
+        "back-end capability table taken from SciPy's documentation.",
+        "DESIGN.md §3 C08",
+    ),
 }
 
 NOT_YET = "check not built yet in this session (planned, see DESIGN.md §3)"
